@@ -163,7 +163,7 @@ const seqAxioms = `
 (declare-fun drop_$S ($S Int) $S)
 (declare-fun upd_$S ($S Int $E) $S)
 (declare-fun eq_$S ($S $S) Bool)
-(assert (forall ((s $S)) (! (>= (len_$S s) 0) :pattern ((len_$S s)))))
+(assert (forall ((s $S)) (! (and (>= (len_$S s) 0) (<= (len_$S s) 4611686018427387903)) :pattern ((len_$S s)))))
 (assert (= (len_$S empty_$S) 0))
 (declare-fun isnil_$S ($S) Bool)
 (declare-fun emptynn_$S () $S)
@@ -254,13 +254,18 @@ func (p *Prelude) Box(T types.Type) (name string) {
 	p.tagNames = append(p.tagNames, "tag_"+key)
 	w("(assert (forall ((x %s)) (! (and (= (unbox_%s (box_%s x)) x) (= (tagof (box_%s x)) tag_%s) (not (= (box_%s x) 0))) :pattern ((box_%s x)))))", s, key, key, key, key, key, key)
 	w("(assert (forall ((i Int)) (! (=> (= (tagof i) tag_%s) (= (box_%s (unbox_%s i)) i)) :pattern ((unbox_%s i)))))", key, key, key, key)
+	switch T.Underlying().(type) {
+	case *types.Pointer, *types.Map:
+		// the reference carried by an interface value that boxes a pointer
+		w("(assert (forall ((x %s)) (! (= (ptrin (box_%s x)) x) :pattern ((box_%s x)))))", s, key, key)
+	}
 	return key
 }
 
 func (p *Prelude) needTagof() {
 	if !p.done["tagof"] {
 		p.done["tagof"] = true
-		p.funDecls = append(p.funDecls, "(declare-fun tagof (Int) Int)", "(assert (= (tagof 0) 0))")
+		p.funDecls = append(p.funDecls, "(declare-fun tagof (Int) Int)", "(assert (= (tagof 0) 0))", "(declare-fun ptrin (Int) Int)", "(assert (= (ptrin 0) 0))")
 	}
 }
 
